@@ -5,7 +5,7 @@
     that the expander model (Model/Expand.v) computes exactly this; the check
     of C04 also compares it directly with Wtp.expand.  No proofs here. *)
 From Coq Require Import List NArith Bool.
-From WTP Require Import Base.Str Model.ArgViews Model.Expand.
+From WTP Require Import Base.Str Model.ArgViews Model.ParserFns Model.Expand.
 Import ListNotations.
 Open Scope N_scope.
 
@@ -110,3 +110,10 @@ Definition page_result_sel (lib : list tpl) (sel : selection) (pre_expand : bool
 Definition if_head : enc := chars s_if ++ [Ch 58].           (* "#if:" *)
 Definition if_result (cond : enc) (more : list enc) : enc :=
   add_newline (strip_i (match strip_i cond with [] => nth 1 more [] | _ => nth 0 more [] end)).
+
+(* {{#ifeq: x | y | a | b}} with plain arguments: a when x and y, trimmed, are equal - as numbers when both are numbers
+   (01 = 1 = 1.0 = 1e0, 0 = -0), as text otherwise (ParserFns.mw_equal) - else b; trimmed *)
+Definition ifeq_head : enc := chars s_ifeq ++ [Ch 58].       (* "#ifeq:" *)
+Definition ifeq_result (x : enc) (more : list enc) : enc :=
+  add_newline (strip_i (if mw_equal (codes (strip_i x)) (codes (strip_i (nth 0 more [])))
+                        then nth 1 more [] else nth 2 more [])).
